@@ -152,3 +152,10 @@ func AllFinished() bool { return true }
 
 // CopyN copies src[0:n] to dst[0:n]; under the executor n may be symbolic without forking.
 func CopyN(dst, src []byte, n int) { copy(dst[:n], src[:n]) }
+
+// Concrete returns v; under the executor the path is split over the feasible values of v so that
+// the result is a constant on each path (use for small value sets only).
+func Concrete(v int) int { return v }
+
+// ConcreteU64 is Concrete for uint64 values.
+func ConcreteU64(v uint64) uint64 { return v }
